@@ -64,9 +64,21 @@ def template_obj(ctx, **kw):
         ci = ctx.index.cls("gwf.core:AnonymousTarget")
     except Exception:
         ci = None
-    if ci is not None:
-        kw["__class__"] = ci
-    return Obj("template", **kw)
+    if ci is None:
+        return Obj("template", **kw)
+    # built the way attrs builds it: the arguments the template function passes bind the declared fields, every other field gets its declared default, and each
+    # field's converter runs on whatever value it got (a working_dir that is not given stays at the class's default - after its converter)
+    o = Obj("template", **{"__class__": ci})
+    given = {k: v for k, v in kw.items() if not (k == "working_dir" and v is None)}
+    declared = {f_[0] for f_ in ci.fields}
+    try:
+        PureInterp(ctx)._bind_fields(o, ci, (), {k: v for k, v in given.items() if k in declared})
+    except (Raised, Unsupported):
+        pass
+    for k, v in kw.items():
+        if k not in declared or k not in o.__dict__["_attrs"]:
+            setattr(o, k, v)
+    return o
 
 
 def click_defaults(ctx, fn):
@@ -928,7 +940,7 @@ def eval_cli_main(ctx, found=True, flag_backend=None, flag_no_color=None, config
     main = idx.func("gwf.cli:main")
     events = []
     config = dict(config or {})
-    env = dict(env or {})
+    env = env if isinstance(env, dict) and type(env) is not dict else dict(env or {})
     defaults = dict(ctx.ev.eval_global("gwf.conf", "CONFIG_DEFAULTS"))
     from collections import ChainMap
     cfg = ChainMap(config, defaults)
@@ -952,7 +964,12 @@ def eval_cli_main(ctx, found=True, flag_backend=None, flag_no_color=None, config
     def h_load(path):
         res["config_path"] = str(path)
         events.append(("config.load", str(path)))
-        return cfg
+        # the object FileConfig.load returns: an instance of the repository's class around ChainMap(<file content>, CONFIG_DEFAULTS)
+        ci_ = idx.cls("gwf.conf:FileConfig")
+        fields_ = [f_[0] for f_ in ci_.fields]
+        if ci_ is None or "data" not in fields_:
+            return cfg
+        return make_instance(ctx, ci_, "config", **{("path" if "path" in fields_ else fields_[0]): path, "data": cfg})
 
     def h_confirm(*a, **k):
         res["prompt"] = True
@@ -1048,6 +1065,45 @@ def cli_main_location_witness(ctx):
     if res["raised"] != "Abort" or res["init"] or res["mkdir"]:
         diffs.append(f"no workflow file and the prompt declined: the callback {'ends with ' + str(res['raised']) if res['raised'] else 'continues'}, "
                      f"initialises {res['init']} and creates {res['mkdir']}; expected click.Abort with nothing created")
+    return n, diffs, None
+
+
+class OffEnv(dict):
+    """An environment in which every variable that is looked up and not listed reads "0" - the value a user exports to switch something OFF."""
+
+    def get(self, key, default=None):
+        return dict.get(self, key, "0")
+
+
+def cli_spec_switch_witness(ctx):
+    """C18: which hash store the commands get, by (use_spec_hashes in the project configuration) x (environment): the file-backed store exactly when the
+    configuration says so - also when every environment variable gwf cares to look at reads "0"."""
+    diffs, n = [], 0
+    gsh = ctx.index.func("gwf.core:get_spec_hashes")
+    for cval in (None, False, True):
+        for env_label, env in (("empty environment", {}), ('an environment in which every variable gwf looks up reads "0"', OffEnv())):
+            res, err = eval_cli_main(ctx, config={} if cval is None else {"use_spec_hashes": cval}, env=env)
+            if err:
+                return n, diffs, err
+            if res["raised"] or not res["context"] or res["context"].get("config") is None:
+                continue     # reported by the location / precedence witnesses
+            cfg = res["context"]["config"]
+            interp = PureInterp(ctx, hooks={"os.getenv": lambda k, d=None, e=env: e.get(k, d), "os.environ.get": lambda k, d=None, e=env: e.get(k, d)})
+            try:
+                st = interp.call(gsh, (), {"working_dir": PROJ, "config": cfg})
+            except Raised as exc:
+                diffs.append(f"use_spec_hashes={cval} in the project configuration, {env_label}: get_spec_hashes ends with {exc.kind}")
+                continue
+            except Unsupported as exc:
+                return n, diffs, str(exc)
+            n += 1
+            got = st._name if isinstance(st, Obj) else repr(st)
+            want = "FileSpecHashes" if cval is True else "NoopSpecHashes"
+            if got != want:
+                diffs.append(f"use_spec_hashes {'not set' if cval is None else 'set to ' + str(cval)} in the project configuration, {env_label}: the commands get {got}, expected {want}: "
+                             + ("spec hashing is switched on behind the configuration's back (an environment variable is tested for being non-empty, not for its value): every "
+                                "target without a record is stale, the whole workflow is submitted again and spec edits cause re-runs although hashing is disabled" if want == "NoopSpecHashes"
+                                else "spec hashing is switched off although the configuration enables it"))
     return n, diffs, None
 
 
@@ -1595,7 +1651,7 @@ def eval_enqueue(ctx):
 
 
 # --------------------------------------------------------------------------- find_workflow on a symbolic directory tree
-def eval_find_workflow(ctx, spec, cwd, existing, links=None):
+def eval_find_workflow(ctx, spec, cwd, existing, links=None, env=None):
     """utils.find_workflow(spec) with the invoking directory `cwd` and the set of existing files; returns (path, obj) / 'raise <kind>' / '<unsupported>'."""
     import posixpath
     fw = ctx.index.func("gwf.utils:find_workflow")
@@ -1643,6 +1699,9 @@ def eval_find_workflow(ctx, spec, cwd, existing, links=None):
         "os.path.isabs": lambda p: str(p).startswith("/"),
         "os.path.dirname": lambda p: posixpath.dirname(str(p)),
     }
+    env = {"PWD": cwd, "HOME": "/home/u"} if env is None else dict(env)
+    hooks.update({"os.environ.get": lambda k_, d_=None: env.get(k_, d_), "os.getenv": lambda k_, d_=None: env.get(k_, d_),
+                  "os.environ.__getitem__": lambda k_: env[k_], "os.environ.__contains__": lambda k_: k_ in env})
     interp = PureInterp(ctx, hooks=hooks)
     try:
         res = interp.call(fw, (spec,))
@@ -1680,13 +1739,19 @@ def find_workflow_witness(ctx):
         # the project is where the file the user points at lives: a workflow file that is a symbolic link to a shared pipeline keeps its own directory
         ("the workflow file is a symbolic link to a shared pipeline", "workflow.py:gwf", "/a/b", {"/a/workflow.py"}, ("/a/workflow.py", "gwf"), {"/a/workflow.py": "/shared/pipeline.py"}),
         ("-f through a symlinked directory", "/home/u/proj/wf.py:gwf", "/x", {"/home/u/proj/wf.py"}, ("/home/u/proj/wf.py", "gwf"), {"/home/u/proj": "/scratch/u/proj"}),
+        # the directory a process runs in is what the kernel says (getcwd), not what the environment says: $PWD is only a shell's note and is stale or foreign after
+        # os.chdir, `make -C`, a cron/systemd wrapper, `sudo`, or when another tool exported it
+        ("$PWD names another project than the directory gwf runs in", "workflow.py:gwf", "/a/b", {"/a/workflow.py", "/other/proj/workflow.py"}, ("/a/workflow.py", "gwf"), None,
+         {"PWD": "/other/proj", "HOME": "/home/u"}),
+        ("$PWD is not set", "workflow.py:gwf", "/a/b", {"/a/workflow.py"}, ("/a/workflow.py", "gwf"), None, {}),
     ]
     diffs, n = [], 0
     import posixpath as _pp
     for row in rows:
         label, spec, cwd, existing, want = row[:5]
         links = row[5] if len(row) > 5 else None
-        got, looked = eval_find_workflow(ctx, spec, cwd, existing, links)
+        env = row[6] if len(row) > 6 else None
+        got, looked = eval_find_workflow(ctx, spec, cwd, existing, links, env)
         if isinstance(got, tuple) and isinstance(got[0], str):
             got = (_pp.normpath(got[0]), got[1])      # '..' collapsed or not is the same location
         if isinstance(got, str) and got.startswith("<unsupported") and "loop bound" in got:
@@ -1696,7 +1761,8 @@ def find_workflow_witness(ctx):
         n += 1
         if got != want:
             diffs.append(f"find_workflow({spec!r}) invoked in {cwd} with files {sorted(existing)}{' and links ' + str(links) if links else ''} [{label}] gives {got}, expected {want}"
-                         + (": the project directory (configuration, .gwf state, relative paths) moves to where the link points" if links else ""))
+                         + (": the project directory (configuration, .gwf state, relative paths) moves to where the link points" if links else "")
+                         + (f" with the environment {env}: the command acts on the project $PWD names - its state files, its tracked jobs - not the one it is run in" if env is not None and got != want and env.get("PWD") else ""))
     return n, diffs, None
 
 
